@@ -735,6 +735,11 @@ func (i *importer) importMuxSignal(dbcMuxSig *dbc.Signal, dbcMsgID uint32, muxed
 			// never holds more ids than the multiplexer has groups
 			seenGroupIDs := make([]bool, muxSig.groupCount)
 			for _, valRange := range dbcExtMux.Ranges {
+				// an inverted range names no group at all, it must not turn the signal into a fixed one
+				if valRange.From > valRange.To {
+					return nil, i.errorf(valRange, &GroupIDError{GroupID: int(valRange.From), Err: ErrOutOfBounds})
+				}
+
 				for j := valRange.From; j <= valRange.To; j++ {
 					// stop at the first group id the multiplexer cannot hold,
 					// a range up to the max uint32 would never end otherwise
